@@ -231,7 +231,7 @@ v('c08r15-merge-drops-denylist', 'C08', 'C08-R15', 'src/terminal.go', "\tif len(
 v('c08r15-post-with-set', 'C08', 'C08-R15', 'src/terminal.go', "\t\t\tt.eventBox.Update(EvtSearchNew, func(pending any) any {\n\t\t\t\tif prev, ok := pending.(searchRequest); ok {\n\t\t\t\t\treturn reloadRequest.merge(prev)\n\t\t\t\t}\n\t\t\t\treturn *reloadRequest\n\t\t\t})", "\t\t\tt.eventBox.Update(EvtSearchNew, func(pending any) any {\n\t\t\t\treturn *reloadRequest\n\t\t\t})")
 v('c11r15-restart-keeps-ordinal', 'C11', 'C11-R15', 'src/core.go', "\t\titemIndex = 0\n\t\tlineAnsiState = nil\n", "\t\tlineAnsiState = nil\n")
 v('c14r11-terminate-keeps-files', 'C14', 'C14-R11', 'src/reader.go', "\tremoveFiles(r.tempFiles)\n\tr.tempFiles = nil\n\tr.mutex.Unlock()\n}", "\tr.tempFiles = nil\n\tr.mutex.Unlock()\n}")
-v('c14r11-quit-keeps-next', 'C14', 'C14-R11', 'src/core.go', "\t\t\t\t\tif nextCommand != nil {\n\t\t\t\t\t\tremoveFiles(nextCommand.tempFiles)\n\t\t\t\t\t}\n\t\t\t\t\tquitSignal := value.(quitSignal)", "\t\t\t\t\tquitSignal := value.(quitSignal)")
+v('c14r11-quit-keeps-next', 'C14', 'C14-R11', 'src/core.go', "\t\t\t\t\tif nextCommand != nil {\n\t\t\t\t\t\tremoveFiles(nextCommand.tempFiles)\n\t\t\t\t\t}\n\t\t\t\t\t// A reload request that we have not handled yet", "\t\t\t\t\t// A reload request that we have not handled yet")
 v('c16r11-execute-silent-unlisted', 'C16', 'C16-R11', 'src/terminal.go', "\t\tactExecute,\n\t\tactExecuteSilent,\n\t\tactExecuteMulti,\n\t\tactReload,", "\t\tactExecute,\n\t\tactExecuteMulti,\n\t\tactReload,")
 v('c01r6-nbsp-rewrite', 'C01', 'C01-R6', 'src/pattern.go', "\t\tlowerText := strings.ToLower(text)\n", "\t\ttext = strings.ReplaceAll(text, \"\\u00a0\", \" \")\n\t\tlowerText := strings.ToLower(text)\n")
 v('c01r4-space-before-escape', 'C01', 'C01-R4', 'src/pattern.go', "\t\tif str[i] == '\\\\' && i+1 < len(str) && str[i+1] == ' ' {\n\t\t\ttoken.WriteByte(' ')\n\t\t\ti++\n\t\t} else if str[i] == ' ' {", "\t\tif str[i] == ' ' && i > 0 {\n\t\t\ttokens = append(tokens, token.String())\n\t\t\ttoken.Reset()\n\t\t} else if str[i] == '\\\\' && i+1 < len(str) && str[i+1] == ' ' {\n\t\t\ttoken.WriteByte(' ')\n\t\t\ti++\n\t\t} else if str[i] == ' ' {")
